@@ -3,9 +3,11 @@
 # Confirms in a fresh scratch worktree of /repo HEAD: demo passes without the patch, fails with it,
 # and the full existing suite passes with it. On success stores /verif/seeded/<PROP>-<letter>/.
 PROP=$1; L=$2
-SRC=/tmp/wt-$PROP/_mut/$L
-WT=/tmp/confirm-$PROP-$L
-LOG=/tmp/confirm-$PROP-$L.log
+PREFIX=${3:-/tmp/wt-}        # worktree prefix of the sub-agent round (/tmp/wt- or /tmp/wt2-)
+TAG=${4:-}                   # id infix for later rounds (e.g. r2)
+SRC=$PREFIX$PROP/_mut/$L
+WT=/tmp/confirm-$PROP-$TAG$L
+LOG=/tmp/confirm-$PROP-$TAG$L.log
 exec >"$LOG" 2>&1
 set -x
 git -C /repo worktree remove --force $WT 2>/dev/null
@@ -13,11 +15,12 @@ git -C /repo worktree add -q --detach $WT HEAD || exit 9
 cp /repo/src/sedpack/_sedpack_rs*.so $WT/src/sedpack/
 DEMO=$(ls $SRC | grep -E '^(demo|test_demo).*\.py$' | head -1)
 cp $SRC/$DEMO $WT/$DEMO
+for extra in $SRC/*.py; do [ "$extra" != "$SRC/$DEMO" ] && cp $extra $WT/ ; done
 cd $WT
 export PYTHONPATH=$WT/src TF_CPP_MIN_LOG_LEVEL=3
 rundemo() {
   # demos hard-code /tmp/wt-<PROP>; run them from the confirm worktree with paths rewritten
-  sed "s#/tmp/wt-$PROP#$WT#g" $DEMO > _demo_run.py
+  sed "s#$PREFIX$PROP#$WT#g" $DEMO > _demo_run.py
   if grep -q "def test_" _demo_run.py && ! grep -q "__main__" _demo_run.py; then
     cp _demo_run.py test_demo_run.py; timeout 900 /venv/bin/python -m pytest -q -p no:cacheprovider test_demo_run.py
   else
@@ -35,11 +38,12 @@ timeout 2400 /venv/bin/python -m pytest -q -p no:cacheprovider -n 6 --timeout=90
 tail -3 suite.log
 SUITE_LINE=$(tail -1 suite.log)
 set +x
-echo "RESULT $PROP-$L apply=$APPLY_RC clean_demo=$CLEAN_RC patched_demo=$PATCHED_RC suite=$SUITE_RC :: $SUITE_LINE"
+echo "RESULT $PROP-$TAG$L apply=$APPLY_RC clean_demo=$CLEAN_RC patched_demo=$PATCHED_RC suite=$SUITE_RC :: $SUITE_LINE"
 if [ $APPLY_RC = 0 ] && [ $CLEAN_RC = 0 ] && [ $PATCHED_RC != 0 ] && [ $SUITE_RC = 0 ]; then
-  D=/verif/seeded/$PROP-$L; mkdir -p $D
+  D=/verif/seeded/$PROP-$TAG$L; mkdir -p $D
+  for extra in $SRC/*.py; do cp $extra $D/ ; done
   cp $SRC/patch.diff $D/patch.diff; cp $SRC/$DEMO $D/$DEMO; cp $SRC/notes.md $D/notes.md 2>/dev/null
-  /venv/bin/python - "$PROP" "$L" "$SUITE_LINE" "$(git -C /repo rev-parse --short HEAD)" <<'PY'
+  /venv/bin/python - "$PROP" "$TAG$L" "$SUITE_LINE" "$(git -C /repo rev-parse --short HEAD)" <<'PY'
 import json,sys
 prop,l,suite,head=sys.argv[1:5]
 notes=open(f'/verif/seeded/{prop}-{l}/notes.md').read() if __import__('os').path.exists(f'/verif/seeded/{prop}-{l}/notes.md') else ''
